@@ -68,6 +68,7 @@ def one_case(ctx, drv):
     rng = ctx.rng
     root = common.scratch_dir('gv.c12.')
     copy = root + '.b'
+    n_fail0 = len(ctx.failures)
     try:
         pl = gen_tree.gen_plan(rng, depth=rng.choice([1, 2, 3]), hostile=rng.random() < 0.4, max_files=4)
         pl.no_conflicts = True
@@ -98,6 +99,11 @@ def one_case(ctx, drv):
         for _ in range(rng.randint(0, 3)):
             gen_tree.mutate_tree(pl, rng, root)
         ctx.count('layout:' + ('lookalike-siblings' if lookalike else 'generated'))
+        if any(sum(1 for f in fn if f.startswith('Manifest')) > 1 for _dp, _dn, fn in os.walk(root)):
+            # several Manifest files in one directory (a stray file named Manifest next to Manifest.gz): outside the premise of
+            # the canonical-form claim, and the territory of finding F8 (rename collisions); owned by C03 / C13
+            ctx.count('outside-premise:two-manifest-files-in-a-directory')
+            return
         o = {'hashes': rng.choice(c03.HASHSETS), 'sort': True}
         if rng.random() < 0.5:
             o['compress_watermark'] = rng.choice([0, 60, 300, 100000])
@@ -108,6 +114,8 @@ def one_case(ctx, drv):
         # replica B: same tree, prior Manifests with their entries in another order; walk order shuffled
         import subprocess
         subprocess.run(['cp', '-a', root, copy], check=True)
+        if os.environ.get('VERIF_KEEP'):
+            subprocess.run(['cp', '-a', root, root + '.init'], check=True)
         for dp, dn, fn in os.walk(copy):
             for f in fn:
                 if f.startswith('Manifest') and os.path.isfile(os.path.join(dp, f)) and not os.path.islink(os.path.join(dp, f)):
@@ -176,8 +184,15 @@ def one_case(ctx, drv):
             if 'writes' in model and model['writes']:
                 ctx.disagree('update(idempotent)', dict(scen, request=req), {'writes': []}, {'writes': [w[:2] for w in model['writes']]})
     finally:
+        keep = os.environ.get('VERIF_KEEP')
+        if keep and len(ctx.failures) > n_fail0:
+            shutil.copytree(root, os.path.join(keep, os.path.basename(root)), symlinks=True)
+            shutil.copytree(root + '.init', os.path.join(keep, os.path.basename(root) + '.init'), symlinks=True)
+            if os.path.isdir(copy):
+                shutil.copytree(copy, os.path.join(keep, os.path.basename(copy)), symlinks=True)
         trees.rmtree(root)
         trees.rmtree(copy)
+        trees.rmtree(root + '.init')
 
 
 def run(ctx):
